@@ -773,7 +773,7 @@ def gen_annotated(rng):
         if on: s += '    %on Quote %' + rng.choice(['enter INITIAL', 'pop']) + '\n'
         s += '}\n'
     s += '%%\n'
-    t = ['"a"', "'b'", '/c+/', '"d"^', "'e'@el", '"n": Num' if 'Num =' in s else '"n"', '"x" ?= "y"', "'z' ?! /q/"]
+    t = ['"a"', "'b'", '/c+/', '"d"^', "'e'@el", '"n": Num' if 'Num =' in s else '"n"', '"x" ?= "y"', "'z' ?! /q/", '"x" ?= "y"^', "'z' ?! /q/^", '"p" ?= \'q+\'', "'if' ?! /[a-z]+/@kw", '/r/ ?= "s"^']
     s += 'S: ' + rng.choice(t) + ' B' + rng.choice(['', '^', '@bee']) + (' Quote' if on else '') + ' { ' + rng.choice(t) + ' } [ B ] ( ' + rng.choice(t) + ' | B );\n'
     s += 'B: ' + rng.choice(t) + (' | <Str> "in"' if sc else '') + (' | <INITIAL, Str> "both"' if sc and rng.random() < 0.5 else '') + ' | ;\n'
     if on: s += 'Quote: <INITIAL, Str> "\\u{22}";\n'
